@@ -228,6 +228,15 @@ def fixed_project(name: str, stage: int = 0):
     """Hand-written projects that every run includes (all their kill points are enumerated)."""
     from simdirector import A, Project, plan_file
 
+    if name == "dropped-step":
+        # stage 1 drops a step (and edits the input of another one, so that a job runs): the cleanup of the
+        # detached step and of its outputs is the last thing the build does; a kill after the last job and before
+        # that commit leaves it to the restart, which has no job to run
+        steps = [A.step("keep", inp=["a.txt"], out=["keep.txt"])]
+        if stage == 0:
+            steps.append(A.step("gone", inp=["a.txt"], out=["sub/gone.txt"], vol=["sub/gone.log"]))
+        plan = [A.static("a.txt"), *steps]
+        return Project(scripts={"./plan.py": plan}, files={"a.txt": ["A0\n", "A1\n"][stage], "plan.py": plan_file(plan)})
     if name == "three-levels":
         # `./sub.py` (an ordinary step with the input cfg.txt) creates `./subsub.py`, which creates `leaf`; all
         # static files are declared by the boot plan.  Stage 1 (the interrupted rebuild) edits cfg.txt and the
@@ -782,6 +791,9 @@ async def search(ctx):
         fixed.append({"id": [ctx.seed, -21 - j], "fixed": "deferred-grand-creator", "model_seed": 1000 * ctx.seed + 77 + j,
                       "nstep": 3, "njob": njob, "sched": sched, "restart_sched": "fifo", "nmut": 0,
                       "mut_seed": 0, "step_points": True, "watch": False})
+    fixed.append({"id": [ctx.seed, -41], "fixed": "dropped-step", "model_seed": 1000 * ctx.seed + 13,
+                  "nstep": 2, "njob": 1, "sched": "fifo", "restart_sched": "fifo", "nmut": 1,
+                  "mut_seed": 0, "step_points": True, "watch": False})
     for j, (njob, sched) in enumerate(((1, "fifo"), (2, "random"))):
         fixed.append({"id": [ctx.seed, -11 - j], "fixed": "three-levels", "model_seed": 1000 * ctx.seed + 50 + j,
                       "nstep": 3, "njob": njob, "sched": sched, "restart_sched": "fifo", "nmut": 1,
